@@ -99,8 +99,75 @@ Definition racy1 (a b : op) : bool :=
   (lockless_write a && (is_readFE b || is_purge b)) || (lockless_read a && is_purge b) || (is_purge a && is_writeEF b).
 Definition racy (a b : op) : bool := racy1 a b || racy1 b a.
 
+(* decidable equality of micro states (computes: every decider is transparent) *)
+Definition dmode_eq_dec (x y : dmode) : {x = y} + {x <> y}. Proof. decide equality. Defined.
+Definition oz_eq_dec (x y : option Z) : {x = y} + {x <> y}. Proof. decide equality. apply Z.eq_dec. Defined.
+Definition op_eq_dec (x y : op) : {x = y} + {x <> y}.
+Proof. decide equality; try apply dmode_eq_dec; apply oz_eq_dec. Defined.
+Definition code_eq_dec (x y : code) : {x = y} + {x <> y}. Proof. decide equality. Defined.
+Definition waiter_eq_dec (x y : waiter) : {x = y} + {x <> y}.
+Proof. decide equality; try apply Bool.bool_dec; try apply dmode_eq_dec; try apply oz_eq_dec; apply N.eq_dec. Defined.
+Definition rec_eq_dec (x y : rec) : {x = y} + {x <> y}.
+Proof. decide equality; try apply Bool.bool_dec; apply list_eq_dec, waiter_eq_dec. Defined.
+Definition thr_eq_dec (x y : thr) : {x = y} + {x <> y}.
+Proof.
+  decide equality; try apply Bool.bool_dec; try apply Nat.eq_dec; try apply op_eq_dec.
+  decide equality. decide equality; [apply oz_eq_dec | apply code_eq_dec].
+Defined.
+Definition mstate_eq_dec (x y : mstate) : {x = y} + {x <> y}.
+Proof.
+  decide equality; try apply thr_eq_dec; try apply Z.eq_dec.
+  - decide equality. apply N.eq_dec.
+  - decide equality. apply N.eq_dec.
+  - decide equality. apply rec_eq_dec.
+Defined.
+Definition mem (s : mstate) (l : list mstate) : bool := if in_dec mstate_eq_dec s l then true else false.
+Lemma mem_In s l : mem s l = true -> In s l.
+Proof. unfold mem. destruct (in_dec mstate_eq_dec s l); [auto | discriminate]. Qed.
+
+Section Reach.
+  Variable stp : mstate -> N -> option mstate.
+  Definition succs (s : mstate) : list mstate :=
+    (match stp s 0%N with Some x => [x] | None => [] end) ++ (match stp s 1%N with Some x => [x] | None => [] end).
+  Definition is_final (s : mstate) : bool := match stp s 0%N, stp s 1%N with None, None => true | _, _ => false end.
+
+  (* the set of reachable states (a certificate; computed, then checked) *)
+  Fixpoint close (fuel : nat) (todo seen : list mstate) : list mstate :=
+    match fuel with
+    | O => seen
+    | S f => match todo with
+             | [] => seen
+             | s :: rest => if mem s seen then close f rest seen else close f (succs s ++ rest) (s :: seen)
+             end
+    end.
+
+  Definition cert_ok (chk : mstate -> bool) (s0 : mstate) (L : list mstate) : bool :=
+    mem s0 L && forallb (fun s => forallb (fun x => mem x L) (succs s)) L &&
+    forallb (fun s => if is_final s then chk s else true) L.
+
+  Lemma cert_sound chk s0 L : cert_ok chk s0 L = true ->
+    forall sched s', Forall (fun t => t = 0%N \/ t = 1%N) sched -> run_with stp s0 sched = Some s' -> final_with stp s' -> chk s' = true.
+  Proof.
+    intros C. apply andb_prop in C. destruct C as [C C3]. apply andb_prop in C. destruct C as [C1 C2].
+    rewrite forallb_forall in C2, C3. apply mem_In in C1.
+    assert (R : forall sched s s', In s L -> Forall (fun t => t = 0%N \/ t = 1%N) sched -> run_with stp s sched = Some s' -> In s' L).
+    { induction sched as [|t l IH]; intros s s' Hin Hs Hr; simpl in Hr; [inversion Hr; subst; exact Hin|].
+      inversion Hs as [|? ? Ht Hl]; subst. destruct (stp s t) as [s1|] eqn:E; [|discriminate].
+      apply (IH s1 s'); [|exact Hl | exact Hr]. specialize (C2 s Hin). rewrite forallb_forall in C2. apply mem_In, C2.
+      unfold succs. destruct Ht as [-> | ->]; rewrite E; [left; reflexivity | apply in_or_app; right; left; reflexivity]. }
+    intros sched s' Hs Hr [F0 F1]. specialize (C3 s' (R sched s0 s' C1 Hs Hr)). unfold is_final in C3. rewrite F0, F1 in C3. exact C3.
+  Qed.
+End Reach.
+
 Definition check_pair (stp : mstate -> N -> option mstate) (pe : bool) (oa ob : op) : bool :=
-  all_good stp (good_final pe 5 oa ob) 64 (minit pe 5 oa ob).
+  let s0 := minit pe 5 oa ob in
+  cert_ok stp (good_final pe 5 oa ob) s0 (close stp 4000 [s0] []).
+
+Lemma check_pair_sound stp pe oa ob : check_pair stp pe oa ob = true -> micro_atomic_with stp pe 5 oa ob.
+Proof.
+  unfold check_pair. intros H sched s Hs Hr Hf.
+  exact (cert_sound stp (good_final pe 5 oa ob) (minit pe 5 oa ob) _ H sched s Hs Hr Hf).
+Qed.
 
 Lemma fixed_all_pairs :
   forallb (fun pe => forallb (fun oa => forallb (fun ob => check_pair mstep_fixed pe oa ob) (ops_of 22)) (ops_of 11)) [false; true] = true.
@@ -118,7 +185,7 @@ Proof.
   pose proof fixed_all_pairs as H. rewrite forallb_forall in H.
   assert (Hpe : In pe [false; true]) by (destruct pe; simpl; auto).
   specialize (H pe Hpe). rewrite forallb_forall in H. specialize (H oa Ha). rewrite forallb_forall in H. specialize (H ob Hb).
-  exact (all_good_sound mstep_fixed _ 64 _ H sched s Hs Hr Hf).
+  exact (check_pair_sound mstep_fixed pe oa ob H sched s Hs Hr Hf).
 Qed.
 
 (* the code as it is: atomic for every pair outside the racy class (and for every pair when the record already exists) *)
@@ -131,5 +198,5 @@ Proof.
   specialize (H pe Hpe). rewrite forallb_forall in H. specialize (H oa Ha). rewrite forallb_forall in H. specialize (H ob Hb).
   apply orb_prop in H. destruct H as [H|H].
   - apply andb_prop in H. destruct H as [H1 H2]. destruct G as [->|G]; [discriminate | congruence].
-  - exact (all_good_sound mstep _ 64 _ H sched s Hs Hr Hf).
+  - exact (check_pair_sound mstep pe oa ob H sched s Hs Hr Hf).
 Qed.
